@@ -16,6 +16,7 @@ import Kopf.Lemmas.C19_Orchestrator
 import Kopf.Lemmas.C19_OrchSkip
 import Kopf.Model.C19_Wiring
 import Kopf.Lemmas.C19_Resources
+import Kopf.Lemmas.C19_Discovery
 namespace Kopf.C19
 
 /-! ## Within one watch -/
@@ -1094,5 +1095,98 @@ theorem skip_noop_revisions_witness :
       · exact absurd hb (by simp)
     exact OrchSkip.acquire_disabled (by show _ = some b.ins; rw [hins])
   · exact OrchSkip.rounds_not_live _ (by rfl) (by rfl) _ hnl
+
+/-! ## Resource kinds appearing and disappearing: the CRD observer (Model/C19_Discovery) -/
+
+/-- **The served resources of an API group are what the discovery showed at the LAST event of a CRD of that
+    group** — for every history of items (listings, ADDED, MODIFIED, DELETED; any names, any generations, any
+    scan results), from any earlier contents of the insights, whatever came before and whatever items of
+    listings and events of OTHER groups came after. No guard: the kind of the event, the generation, the spec
+    and the status of the CRD play no part. With the API server's contract — what a group serves changes only
+    together with an event of one of its CRDs (the CRD stored, ESTABLISHED by a status-only update, its spec
+    changed, the CRD removed) — this is the clause 'for every sequence of resource kinds appearing and
+    disappearing': after the last event the insights hold the kinds that exist, and `served_pairs_have_live_watcher`
+    gives each of them its watch. -/
+theorem rescan_follows_discovery (w : Disc.Watched) (pre post : List Disc.Item) (it : Disc.Item)
+    (hev : it.ty ≠ .listed) (hpost : ∀ x ∈ post, x.ty = .listed ∨ x.group ≠ it.group) :
+    Disc.part (Disc.run w (pre ++ it :: post)) it.group = it.found.map (fun r => (it.group, r)) := by
+  rw [Disc.run_append]
+  show Disc.part (Disc.run (Disc.step (Disc.run w pre) it) post) it.group = _
+  rw [Disc.part_run_other _ post it.group hpost]
+  unfold Disc.step
+  simp only [hev, if_false]
+  exact Disc.part_rescan_same _ _ _
+
+/-- a kind whose CRD is stored (ADDED: the scan finds nothing yet) and established half a second later by a
+    status-only update (MODIFIED, generation 1 as before: now the scan finds resource 7) is served; an event of
+    another group's CRD afterwards changes nothing about it -/
+example : Disc.run [] [⟨.added, 0, 1, 0, []⟩, ⟨.modified, 0, 1, 0, [7]⟩, ⟨.modified, 5, 3, 1, [9]⟩] = [(0, 7), (1, 9)] := by decide
+
+/-- a kind that the last event of its group's CRDs shows is served … -/
+theorem appeared_kind_served (w : Disc.Watched) (pre post : List Disc.Item) (it : Disc.Item) (r : Nat)
+    (hev : it.ty ≠ .listed) (hpost : ∀ x ∈ post, x.ty = .listed ∨ x.group ≠ it.group) (hr : r ∈ it.found) :
+    (it.group, r) ∈ Disc.run w (pre ++ it :: post) := by
+  have h := rescan_follows_discovery w pre post it hev hpost
+  have hm : (it.group, r) ∈ Disc.part (Disc.run w (pre ++ it :: post)) it.group := by
+    rw [h]; exact List.mem_map.mpr ⟨r, hr, rfl⟩
+  exact (List.mem_filter.mp hm).1
+
+/-- … and one that it does not show is not (a kind that disappeared, whatever the insights held before) -/
+theorem vanished_kind_unserved (w : Disc.Watched) (pre post : List Disc.Item) (it : Disc.Item) (r : Nat)
+    (hev : it.ty ≠ .listed) (hpost : ∀ x ∈ post, x.ty = .listed ∨ x.group ≠ it.group) (hr : r ∉ it.found) :
+    (it.group, r) ∉ Disc.run w (pre ++ it :: post) := by
+  intro hin
+  have h := rescan_follows_discovery w pre post it hev hpost
+  have hm : (it.group, r) ∈ Disc.part (Disc.run w (pre ++ it :: post)) it.group :=
+    List.mem_filter.mpr ⟨hin, by simp⟩
+  rw [h] at hm
+  obtain ⟨r', hr', he⟩ := List.mem_map.mp hm
+  have : r' = r := by injection he
+  exact hr (this ▸ hr')
+
+example : (0, 7) ∉ Disc.run [(0, 7), (1, 9)] [⟨.deleted, 0, 2, 0, []⟩] := by decide
+
+/-- the events of one group's CRDs leave the served resources of every other group as they were -/
+theorem other_groups_untouched (w : Disc.Watched) (its : List Disc.Item) (g : Nat)
+    (h : ∀ x ∈ its, x.ty = .listed ∨ x.group ≠ g) : Disc.part (Disc.run w its) g = Disc.part w g :=
+  Disc.part_run_other w its g h
+
+/-- **… and it is the re-scan on EVERY event that does it: a processor that drops the MODIFIED events of a CRD
+    whose generation it has already seen loses the kinds that appear at runtime (the variant `stepSkip` of
+    Model/C19_Discovery; seeded change C19h).** Two histories within the API server's contract — (1) the CRD
+    is stored while the operator runs (ADDED, generation 1: the scan finds nothing yet) and then established
+    (MODIFIED, a status-only update, generation 1: the scan would find resource 7); (2) the CRD was stored
+    before the operator started (an item of the listing, generation 1) and is established at runtime. Of the
+    code as it is both end with the kind served (`rescan_follows_discovery`); the variant serves nothing, and
+    this stays so however many more status-only updates of the CRD follow (`∀ n`: conditions, stored versions,
+    annotations — each of them an event at which the discovery shows the kind). -/
+theorem skip_known_generation_witness :
+    ∃ (runtime listedFirst : List Disc.Item) (more : Disc.Item),
+      more.ty = .modified ∧ more.found = [7] ∧
+      (∀ n, Disc.run [] (runtime ++ List.replicate n more) = [(0, 7)] ∧
+            (Disc.runSkip ⟨[], []⟩ (runtime ++ List.replicate n more)).watched = []) ∧
+      (∀ n, Disc.run [] (listedFirst ++ List.replicate n more) = [(0, 7)] ∧
+            (Disc.runSkip ⟨[], []⟩ (listedFirst ++ List.replicate n more)).watched = []) := by
+  refine ⟨[⟨.added, 0, 1, 0, []⟩, ⟨.modified, 0, 1, 0, [7]⟩], [⟨.listed, 0, 1, 0, []⟩, ⟨.modified, 0, 1, 0, [7]⟩],
+    ⟨.modified, 0, 1, 0, [7]⟩, rfl, rfl, ?_, ?_⟩ <;> intro n <;> refine ⟨?_, ?_⟩
+  · rw [Disc.run_append]
+    exact Disc.foldl_replicate_fixed Disc.step [(0, 7)] _ (by decide) n
+  · rw [Disc.runSkip_append]
+    have h : Disc.runSkip ⟨[], []⟩ [⟨.added, 0, 1, 0, []⟩, ⟨.modified, 0, 1, 0, [7]⟩] = ⟨[], [(0, 1)]⟩ := by decide
+    rw [h]
+    show ((List.replicate n _).foldl Disc.stepSkip _).watched = []
+    rw [Disc.foldl_replicate_fixed Disc.stepSkip ⟨[], [(0, 1)]⟩ _ (by decide) n]
+  · rw [Disc.run_append]
+    exact Disc.foldl_replicate_fixed Disc.step [(0, 7)] _ (by decide) n
+  · rw [Disc.runSkip_append]
+    have h : Disc.runSkip ⟨[], []⟩ [⟨.listed, 0, 1, 0, []⟩, ⟨.modified, 0, 1, 0, [7]⟩] = ⟨[], [(0, 1)]⟩ := by decide
+    rw [h]
+    show ((List.replicate n _).foldl Disc.stepSkip _).watched = []
+    rw [Disc.foldl_replicate_fixed Disc.stepSkip ⟨[], [(0, 1)]⟩ _ (by decide) n]
+
+/-- the variant is not wrong about everything: a change of the spec (a new generation) is still followed -/
+example : (Disc.runSkip ⟨[], []⟩ [⟨.added, 0, 1, 0, []⟩, ⟨.modified, 0, 1, 0, [7]⟩, ⟨.modified, 0, 2, 0, [7]⟩]).watched = [(0, 7)] := by
+  decide
+
 
 end Kopf.C19
